@@ -70,9 +70,9 @@ def constants_text(b, mech=None, export=False):
     m = dict(MECH)
     m.update(mech or {})
     t = ["CONSTANTS", f" H = {b['H']}", f" Boxes = {_set(boxcode(*x) for x in b['Boxes'])}",
-         f" MaxBoxes = {b['MaxBoxes']}", f" MaxOps = {b['MaxOps']}", f" Quarters = {_set(b['Quarters'])}",
+         f" MinBoxes = {b.get('MinBoxes', 1)}", f" MaxBoxes = {b['MaxBoxes']}", f" MaxOps = {b['MaxOps']}", f" Quarters = {_set(b['Quarters'])}",
          f" Shifts = {_set(pair(*x) for x in b['Shifts'])}", f" Factors = {_set(pair(*x) for x in b['Factors'])}",
-         f" Origins = {_set(pair(*x) for x in b['Origins'])}", f" MaxHoles = {b['MaxHoles']}",
+         f" Origins = {_set(pair(*x) for x in b['Origins'])}", f" MaxHoles = {b['MaxHoles']}", f" Chained = {'TRUE' if b.get('Chained') else 'FALSE'}",
          f" PolyOps = {_sset(b['PolyOps'])}", f" DevOps = {_sset(b['DevOps'])}",
          f" Export = {'TRUE' if export else 'FALSE'}"]
     for k, v in m.items():
